@@ -23,7 +23,7 @@ type C04Case struct {
 }
 
 var c04Weights = core.OpWeights{
-	core.OpInsert: 20, core.OpInsertNew: 30, core.OpUpdate: 6, core.OpDelete: 30, core.OpInsertSame: 2,
+	core.OpInsert: 20, core.OpInsertNew: 30, core.OpUpdate: 6, core.OpDelete: 30, core.OpDeleteTop: 6, core.OpInsertSame: 2,
 	core.OpClone: 3, core.OpPersist: 6, core.OpReload: 4, core.OpReloadJSON: 1, core.OpDrain: 1,
 }
 
